@@ -49,6 +49,15 @@ def graph_obs(b, dsg, deep=True):
     }
     if not deep:
         return obs
+    conns = []
+    for c in sorted((n for n in dsg.graph.nodes if isinstance(n, ConnectionChoiceNode)), key=b.name):
+        try:
+            sets = tuple(sorted(tuple(sorted((b.name(s), b.name(t)) for s, t in edges))
+                                for edges in c.iter_conn_edges(dsg)))
+        except Exception as e:
+            sets = ('EXC', type(e).__name__)
+        conns.append((b.name(c), sets))
+    obs['conn_sets'] = tuple(conns)      # read BEFORE feasibility: reading `feasible` may refresh state shared between graphs
     obs['feasible'] = bool(dsg.feasible)
     try:
         nxt = dsg.get_ordered_next_choice_nodes()
@@ -60,15 +69,6 @@ def graph_obs(b, dsg, deep=True):
     for c in sorted((n for n in dsg.graph.nodes if isinstance(n, SelectionChoiceNode)), key=b.name):
         opts.append((b.name(c), tuple(b.name(o) for o in dsg.get_option_nodes(c))))
     obs['options'] = tuple(opts)
-    conns = []
-    for c in sorted((n for n in dsg.graph.nodes if isinstance(n, ConnectionChoiceNode)), key=b.name):
-        try:
-            sets = tuple(sorted(tuple(sorted((b.name(s), b.name(t)) for s, t in edges))
-                                for edges in c.iter_conn_edges(dsg)))
-        except Exception as e:
-            sets = ('EXC', type(e).__name__)
-        conns.append((b.name(c), sets))
-    obs['conn_sets'] = tuple(conns)
     degs = []
     for n in dsg.graph.nodes:
         if hasattr(n, 'deg_list'):
